@@ -9,6 +9,10 @@
 //   L e t             worker t:  get_locals() names
 //   G e t name v      worker t:  chai.add_global(var(v), name)
 //   D e t             worker t:  run the destructor
+//   T e t p n         worker t:  chai.add(user_type<Probe_p>(), "Name_n")     (register a script name for a C++ type)
+//   N e t p           worker t:  chai.get_type_name<Probe_p>()               -> the name this engine knows the type by
+//   V e t c           worker t:  register user conversion c (0: Metres->Feet, 1: Celsius->Kelvin)
+//   U e t c           worker t:  evaluate a call that needs conversion c      -> value | ERR
 // Output: one observation per op, separated by " | ".   Engines still alive at the end are destroyed on worker 0.
 #include "hcommon.hpp"
 #include <condition_variable>
@@ -20,6 +24,22 @@
 using namespace chaiscript;
 
 namespace {
+  struct Probe_0 { int v = 0; };
+  struct Probe_1 { int v = 0; };
+  struct Metres { int v; };
+  struct Feet { int v; };
+  struct Celsius { int v; };
+  struct Kelvin { int v; };
+  int feet_value(const Feet &f) { return f.v; }
+  int kelvin_value(const Kelvin &k) { return k.v; }
+
+  void register_probe_functions(ChaiScript_Basic &c) {
+    c.add(fun([]() { return Metres{2}; }), "mk_metres");
+    c.add(fun([]() { return Celsius{5}; }), "mk_celsius");
+    c.add(fun(&feet_value), "feet_value");
+    c.add(fun(&kelvin_value), "kelvin_value");
+  }
+
   constexpr int NSLOT = 3, NWORKER = 3;
   alignas(64) unsigned char g_arena[NSLOT][sizeof(ChaiScript_Basic)];
   bool g_slot_used[NSLOT];
@@ -90,7 +110,7 @@ namespace {
           const int slot = std::stoi(w.at(2)), t = std::stoi(w.at(3));
           if (slot < 0 || slot >= NSLOT || g_slot_used[slot] || live.count(e) || t < 0 || t >= NWORKER) return "BADCASE";
           ChaiScript_Basic *p = nullptr;
-          workers[t]->run([&] { p = new (g_arena[slot]) ChaiScript_Basic(verif_stdlib(), verif_parser(true)); });
+          workers[t]->run([&] { p = new (g_arena[slot]) ChaiScript_Basic(verif_stdlib(), verif_parser(true)); register_probe_functions(*p); });
           live[e] = p;
           slot_of[e] = slot;
           g_slot_used[slot] = true;
@@ -120,6 +140,30 @@ namespace {
             const std::string name = w.at(3);
             const int v = std::stoi(w.at(4));
             workers[t]->run([&] { try { p->add_global(var(v), name); res = "ok"; } catch (...) { res = "conflict"; } });
+          } else if (k == "T") {
+            const int pt = std::stoi(w.at(3));
+            const std::string name = "Name_" + w.at(4);
+            workers[t]->run([&] {
+              try { if (pt == 0) p->add(user_type<Probe_0>(), name); else p->add(user_type<Probe_1>(), name); res = "ok"; }
+              catch (...) { res = "ERR(" + vf::classify_current_exception() + ")"; } });
+          } else if (k == "N") {
+            const int pt = std::stoi(w.at(3));
+            workers[t]->run([&] {
+              try { res = pt == 0 ? p->get_type_name<Probe_0>() : p->get_type_name<Probe_1>(); if (res.rfind("Name_", 0) != 0) res = "unregistered"; }
+              catch (...) { res = "ERR(" + vf::classify_current_exception() + ")"; } });
+          } else if (k == "V") {
+            const int cv = std::stoi(w.at(3));
+            workers[t]->run([&] {
+              try {
+                if (cv == 0) p->add(type_conversion<Metres, Feet>([](const Metres &m) { return Feet{m.v * 3}; }));
+                else p->add(type_conversion<Celsius, Kelvin>([](const Celsius &c) { return Kelvin{c.v + 273}; }));
+                res = "ok";
+              } catch (...) { res = "ERR(" + vf::classify_current_exception() + ")"; } });
+          } else if (k == "U") {
+            const int cv = std::stoi(w.at(3));
+            workers[t]->run([&] {
+              try { res = std::to_string(p->eval<int>(cv == 0 ? "feet_value(mk_metres())" : "kelvin_value(mk_celsius())")); }
+              catch (...) { res = "ERR"; } });
           } else if (k == "D") {
             workers[t]->run([&] { p->~ChaiScript_Basic(); });
             g_slot_used[slot_of[e]] = false;
